@@ -324,8 +324,10 @@ def do_incompatible(ctx, yastn, rng, cfg, sym, x, legs, cplx, case):
     if nd < 3:
         return
     y = tgen.rand_tensor(rng, cfg, sym, [l.conj() for l in legs], cplx=cplx, drop=0.2, allow_empty=False)
-    how = rng.choice(["order", "grouping", "mode", "partial"])
+    how = rng.choice(["order", "grouping", "mode", "partial", "dims", "dims"])
     g = list(range(nd))
+    if how == "dims":
+        return do_incompatible_dims(ctx, yastn, rng, cfg, sym, cplx, case)
     if how == "order":      # same legs fused in a different order
         fa = x.fuse_legs(axes=((0, 1),) + tuple(range(2, nd)), mode="hard")
         fb = y.fuse_legs(axes=((1, 0),) + tuple(range(2, nd)), mode="hard")
@@ -362,6 +364,73 @@ def do_incompatible(ctx, yastn, rng, cfg, sym, x, legs, cplx, case):
         la = fa.get_legs(axes[0]) if opname == "tensordot" else None
         ctx.fail("oracle", f"c03:incompatible-computed:{opname}", f"{opname} on incompatibly fused legs ({how}) was computed instead of being rejected with YastnError",
                  case=case, concrete=True)
+
+
+def do_incompatible_dims(ctx, yastn, rng, cfg, sym, cplx, case):
+    """two legs with the SAME charges but different sector dimensions, fused in opposite order: the fused legs have equal
+    effective charges and equal sector sizes, but decompose them differently -> every operation pairing them must be rejected"""
+    s0 = rng.choice([1, -1])
+    X = tgen.rand_leg(rng, cfg, sym, s=s0, max_dim=4)
+    for _ in range(20):
+        D2 = tuple(rng.randint(1, 4) for _ in X.D)
+        if D2 != tuple(X.D):
+            break
+    else:
+        return
+    Y = yastn.Leg(cfg, s=s0, t=X.t, D=D2)
+    Z = tgen.rand_leg(rng, cfg, sym)
+    nest = rng.choice(["plain", "plain", "hard2", "meta", "trace"])
+    case.update({"how": "dims", "nest": nest, "X": [list(map(list, X.t)), list(X.D)], "Y": list(D2), "s": s0})
+
+    def pre(fa, fb, conj_b=True):
+        la, lb = fa.get_legs(0), fb.get_legs(0)
+        if conj_b:
+            lb = lb.conj()
+        # the premise of the test: same history of charges, different history of dimensions
+        return la.hf.t == lb.hf.t and la.hf.D != lb.hf.D and la.hf.s == lb.hf.s
+
+    ops = []
+    if nest == "trace":
+        c = tgen.rand_tensor(rng, cfg, sym, [X, Y, Y.conj(), X.conj()], cplx=cplx, drop=0.0, allow_empty=False)
+        cf = c.fuse_legs(axes=((0, 1), (2, 3)), mode="hard")
+        l0, l1 = cf.get_legs(0), cf.get_legs(1).conj()
+        if not (l0.hf.t == l1.hf.t and l0.hf.D != l1.hf.D):
+            ctx.count("incompatible-dims:premise-not-met"); return
+        ops = [("trace", lambda: cf.trace(axes=(0, 1)))]
+    else:
+        a = tgen.rand_tensor(rng, cfg, sym, [X, Y, Z], cplx=cplx, drop=0.0, allow_empty=False)
+        # opposite total charge, so that add/vdot really pair the two tensors (vdot of different charges is 0 without looking at legs)
+        nb = cfg.sym.add_charges(a.n, signatures=(-1,)) if sym != "dense" else None
+        b = tgen.rand_tensor(rng, cfg, sym, [Y.conj(), X.conj(), Z.conj()], cplx=cplx, n=nb, drop=0.0, allow_empty=False)
+        if b.size == 0:
+            ctx.count("incompatible-dims:premise-not-met"); return
+        fa = a.fuse_legs(axes=((0, 1), 2), mode="hard")
+        fb = b.fuse_legs(axes=((0, 1), 2), mode="hard")
+        if not pre(fa, fb):
+            ctx.count("incompatible-dims:premise-not-met"); return
+        if nest == "plain":
+            ops = [("tensordot", lambda: yastn.tensordot(fa, fb, axes=(0, 0))),
+                   ("add", lambda: fa + fb.conj()), ("sub", lambda: fa - fb.conj()), ("vdot", lambda: yastn.vdot(fa, fb.conj()))]
+        else:
+            mode = "hard" if nest == "hard2" else "meta"
+            f2a = fa.fuse_legs(axes=[(0, 1)], mode=mode)
+            f2b = fb.fuse_legs(axes=[(0, 1)], mode=mode)
+            ops = [("vdot", lambda: yastn.vdot(f2a, f2b.conj())), ("sub", lambda: f2a - f2b.conj()),
+                   ("tensordot", lambda: yastn.tensordot(f2a, f2b, axes=(0, 0)))]
+    ctx.case({"sym": sym, "kind": "incompatible", "how": "dims:" + nest, "s": s0})
+    ctx.count("incompatible-dims:" + nest)
+    for opname, fn in ops:
+        try:
+            fn()
+        except yastn.YastnError:
+            ctx.count(f"rejected:{opname}")
+            continue
+        except Exception as e:  # noqa: BLE001
+            ctx.fail("oracle", f"c03:incompatible-exception:{opname}", f"{opname} on legs fused from sub-legs of equal charges but different dimensions ({nest}) "
+                     f"raised {type(e).__name__} ({e}) instead of YastnError", case=case, concrete=True)
+            continue
+        ctx.fail("oracle", f"c03:incompatible-computed:{opname}", f"{opname} on legs fused from sub-legs of equal charges but different dimensions ({nest}; "
+                 f"X.D={tuple(X.D)}, Y.D={D2}) was computed instead of being rejected with YastnError", case=case, concrete=True)
 
 
 def do_block(ctx, yastn, rng, cfg, sym, cplx, case):
